@@ -28,6 +28,8 @@ pub struct Info {
     pub boundary: u32,
     pub lossy: u32,
     pub labels: Vec<String>,
+    /// restrict generation to the lossless sub-domain (names <= 64, icon <= 128, no rp icon)
+    pub lossless: bool,
 }
 
 impl Info {
@@ -85,6 +87,7 @@ fn name_text(src: &mut Src, info: &mut Info, what: &str) -> Value {
     const L: [usize; 9] = [0, 1, 63, 64, 65, 66, 67, 100, 300];
     let k = src.below(L.len() + 4);
     let n = if k < L.len() { L[k] } else { src.range(0, 300) };
+    let n = if info.lossless && n > 64 { n % 65 } else { n };
     if n > 64 {
         info.lossy += 1;
         info.b(&format!("{}>64", what));
@@ -98,6 +101,7 @@ fn icon_text(src: &mut Src, info: &mut Info, what: &str) -> Value {
     const L: [usize; 7] = [0, 1, 127, 128, 129, 130, 300];
     let k = src.below(L.len() + 3);
     let n = if k < L.len() { L[k] } else { src.range(0, 300) };
+    let n = if info.lossless && n > 128 { n % 129 } else { n };
     if n > 128 {
         info.lossy += 1;
         info.b(&format!("{}>128", what));
@@ -122,7 +126,7 @@ pub fn gen_rp(src: &mut Src, info: &mut Info, p_name: bool, icon_kind: usize) ->
     if info.opt(p_name) {
         m.push(ks("name", name_text(src, info, "rp.name")));
     }
-    match icon_kind {
+    match if info.lossless { 0 } else { icon_kind } {
         1 => {
             info.opt(true);
             info.lossy += 1;
